@@ -133,6 +133,27 @@ func (w *World) verifyFunc(fn *ssa.Function) *FuncResult {
 		binds = append(binds, mkParam(p.Name(), p.Type(), true))
 	}
 	x.pureCellBase = 1 << 30
+	// every map reachable from the inputs was allocated before the call
+	st.alloc = VarT("alloc0", "Int")
+	st.assume(Cmp(">=", st.alloc, IntT(0)))
+	for i, p := range fn.Params {
+		var t *Term
+		typ := p.Type()
+		switch a := args[i].(type) {
+		case *Term:
+			t = a
+		case *PtrV:
+			t, _ = st.cells[a.cell].(*Term)
+			if pt, ok := typ.Underlying().(*types.Pointer); ok {
+				typ = pt.Elem()
+			}
+		}
+		if t != nil {
+			for _, leaf := range x.mapLeaves(t, typ, 0) {
+				st.assume(Cmp("<=", leaf, st.alloc))
+			}
+		}
+	}
 	// requires
 	fr := x.bindParams(st, fn, args, binds)
 	fr.root = true
@@ -216,6 +237,17 @@ func (w *World) verifyFunc(fn *ssa.Function) *FuncResult {
 			}
 			x.oblige(s2, "ensures", "receiver-invariant:"+c.Label, c.Props, g, token.NoPos)
 		}
+		for _, c := range w.commonPostFor(fn) {
+			env := x.newSpecEnv(s2, s2.old, fn)
+			env.bindRootParams(s2.frames[0])
+			env.setResults(fn, results)
+			g, err := env.evalBool(c.Expr)
+			if err != nil {
+				x.contractError(c, err)
+				continue
+			}
+			x.oblige(s2, "ensures", "common:"+c.Label, c.Props, g, token.NoPos)
+		}
 		if fc == nil {
 			return
 		}
@@ -271,4 +303,26 @@ func (w *World) outsideSubset(fn *ssa.Function) string {
 		}
 	}
 	return ""
+}
+
+// mapLeaves: the map references directly contained in a value (struct fields, not slice elements).
+func (x *Exec) mapLeaves(t *Term, typ types.Type, depth int) []*Term {
+	if depth > 3 {
+		return nil
+	}
+	switch u := typ.Underlying().(type) {
+	case *types.Map:
+		return []*Term{t}
+	case *types.Struct:
+		d := x.w.dts[t.Sort]
+		if d == nil {
+			return nil
+		}
+		var out []*Term
+		for i := 0; i < u.NumFields(); i++ {
+			out = append(out, x.mapLeaves(Sel(d.Ctors[0].Sels[i], t), u.Field(i).Type(), depth+1)...)
+		}
+		return out
+	}
+	return nil
 }
